@@ -95,7 +95,7 @@ impl Property for C15 {
     }
 
     fn budget(tier: Tier) -> u64 {
-        tier.pick(8000, 40_000)
+        tier.pick(8000, 30_000)
     }
 
     fn case_timeout_s(_tier: Tier) -> u64 {
